@@ -165,6 +165,20 @@ impl C12 {
         out.fail(env, viol("jd", "panics", case, &k, format!("JD {} = {} + {:.4} s", jd, ofmt(c, a), frac), format!("{} (+-0.5 s)", ofmt(c, a)), e));
       }
     }
+    // conversions are functions of their argument: after converting this (possibly rounding-up) Julian date, the
+    // noon of the same civil day and of the next one must still convert to their own days
+    for dd in 0..2usize {
+      if i + dd < NDAYS {
+        if let Ok(x) = guard(|| ymd(&JulianDay::from_julian_day(jd).get_solar_day())) {
+          let _ = x;
+        }
+        if let Ok(nd) = guard(|| ymd(&JulianDay::from_julian_day(c.jdn(i + dd) as f64).get_solar_day())) {
+          if nd != c.ymd(i + dd) {
+            out.fail(env, viol("jd", "noon_conversion_after_rounding_conversion", case, &k, format!("JD {} (noon) converted right after JD {}", c.jdn(i + dd), jd), c.fmt(i + dd), fmt_ymd(nd)));
+          }
+        }
+      }
+    }
     // the day-level conversion of the same Julian date
     if !rounds_up || !carry {
       if let Ok(dd) = guard(|| ymd(&JulianDay::from_julian_day(jd).get_solar_day())) {
@@ -199,6 +213,8 @@ fn step_strategy(b: Vec<i64>) -> impl Strategy<Value = Case> {
     2 => -100_000i64..=100_000,
     2 => -1_000_000_000i64..=1_000_000_000,
     2 => prop_oneof![Just(60i64), Just(-60), Just(3600), Just(-3600), Just(86400), Just(-86400), Just(86399), Just(-86399), Just(31_536_000), Just(-31_536_000)],
+    // whole-day differences (equal clock reading on both sides)
+    3 => (-4000i64..=4000).prop_map(|k| k * 86400),
     1 => Just(0i64),
   ];
   (from, n).prop_map(|(a, n)| Case::ints(&[a, (a + n).clamp(0, TOTAL_SECS - 1)]))
